@@ -58,8 +58,8 @@ TOL_HOOKE = 1e-10       # sigma = C : eps, relative to max|C| max|eps|, multipli
 TOL_SCALE = 1e-10       # eps(lam x) = eps(x) / lam, relative, multiplied by (1 + 1/gap)
 TOL_C = 3e-8            # stored C against my own rotated tensor, relative to max|C|
 TOL_K = 3e-8            # energy tensor against the angular integral (K is zeroed below 1e-8 of its maximum)
-TOL_COV = 1e-9          # covariance, relative, multiplied by (1 + 1/gap); + 6e-8 cond when an entry lies in the floor band
-GAP_REFUSAL = 0.1       # a refusal (Stroh self-checks) is legitimate only for roots closer than this
+TOL_COV = 1e-9          # covariance, relative, multiplied by (1 + 1/gap); + 2e-7 cond when an entry lies in the floor band
+GAP_REFUSAL = 0.25      # a refusal (Stroh self-checks) is legitimate only for roots closer than this
 B_LIMIT = 100.0         # isotropic limit: |field(t) - closed form| <= B_LIMIT * t * scale   (perturbation t * lambda_min)
 
 _CAL = os.environ.get('VERIF_C12_CAL')
@@ -162,7 +162,7 @@ def call_solver(solver, C6, b, kw, iso_medium, gap=None):
             raise
         # Stroh's self-checks failed (for 'auto': and the isotropic fallback refuses the anisotropic medium).  That is the
         # documented answer to (nearly) coincident roots, where the eigenvector expansion breaks down.  On the unchanged
-        # tree every refusal has gap <= 7e-3 (RESULTS.txt); a refusal of well separated roots is a solver that does not
+        # tree every refusal has gap <= 1e-2 (RESULTS.txt); a refusal of well separated roots is a solver that does not
         # solve problems "away from eigenvalue degeneracy".
         require(gap is None or gap < GAP_REFUSAL, lambda: '%s refused (%s) a positive-definite problem whose roots p are separated '
                 'by %.3g' % (solver, msg, gap))
@@ -318,6 +318,10 @@ def oracle_jump(case):
         close(np.abs(a - b).max(), 1e-9 * S.amp * sc, 'zshift', lambda: '%s changes along the line direction (shift %g)' % (name, sh))
         one = field(sol, name, rays[0], pl)
         close(np.abs(one - a[0]).max(), 1e-11 * S.amp * sc, 'single', lambda: '%s(single point) differs from the row of the array evaluation' % name)
+        # array lengths 6 (= number of roots) and 3 (= dimension) are where an axis mix-up would hide
+        reps = {1: 6, 2: 3, 3: 2}[len(rays)]
+        a6 = field(sol, name, np.tile(rays, (reps, 1)), pl)
+        close(np.abs(a6 - np.tile(a, (reps,) + (1,) * (a.ndim - 1))).max(), 1e-11 * S.amp * sc, 'six', lambda: '%s on an array of 6 points differs from the point-by-point values' % name)
         if np.all(rays == np.round(rays)):
             # integer-valued coordinates handed over as Python ints (nested list)
             got = np.asarray(getattr(sol, name)(rays.astype(int).tolist()))
@@ -417,7 +421,7 @@ _xs = st.lists(st.one_of(gens.nice(0.3, 30.0, 3), st.sampled_from([1.0, 2.0])), 
 
 @st.composite
 def energy_cases(draw):
-    return {'prob': draw(_prob_any), 'xs': draw(_xs), 'z': draw(_cutz)}
+    return {'prob': draw(_prob_any), 'xs': draw(_xs), 'z': draw(_cutz), 'resolve': draw(_bool)}
 
 
 def barnett_lothe_K(S):
@@ -478,6 +482,23 @@ def oracle_energy(case):
         exp = K @ S.b / (2 * math.pi * x)
         close(np.abs(tr - exp).max(), (1e-7 + 1e-10 * S.amp) * kmax * S.bn / (2 * math.pi * x), 'traction',
               lambda: 'traction on the slip plane at x = %g: %r, K.b/(2 pi x) = %r' % (x, tr, exp))
+    # the same object solved again for the medium 2 C and the Burgers vector -1.5 b: everything is linear in b, the stress
+    # and K also in C (the zeroing floors are relative, so they do not interfere); nothing of the first solution may survive
+    if case.get('resolve') and prob['solver'] != 'auto':
+        import atomman as am
+        pos = np.array([x * S.m + case['z'] * S.xi for x in case['xs']] + [S.n * case['xs'][0] - 0.5 * S.m])
+        before = {nm: field(sol, nm, pos) for nm in ('displacement', 'strain', 'stress')}
+        b, kw = solver_args(prob, S)
+        sol.solve(am.ElasticConstants(Cij=2.0 * S.C6), (-1.5 * np.asarray(b, dtype=float)).tolist() if prob['aslist'] else -1.5 * np.asarray(b, dtype=float), **kw)
+        K2 = np.asarray(sol.K_tensor, dtype=float)
+        close(np.abs(K2 - 2 * K).max(), 1e-9 * S.amp * kmax, 'resolve_K', lambda: 'after solve(2 C, -1.5 b) on the same object K_tensor is\n%r\nexpected twice\n%r' % (K2, K))
+        for nm, f in (('displacement', -1.5), ('strain', -1.5), ('stress', -3.0)):
+            got = field(sol, nm, pos)
+            sc = S.bn if nm == 'displacement' else float(np.abs(before[nm]).max())
+            close(np.abs(got - f * before[nm]).max(), 1e-9 * S.amp * sc * abs(f), 'resolve_' + nm,
+                  lambda: 'after solve(2 C, -1.5 b) on the same object %s is not %g times the first solution' % (nm, f))
+        close(abs(float(sol.preln) - 4.5 * pre), 1e-7 * kmax * S.bn ** 2 * 4.5, 'resolve_pre', lambda: 'preln after solve(2 C, -1.5 b): %r, expected %r' % (sol.preln, 4.5 * pre))
+        labels.add('resolved')
     return labels
 
 
@@ -514,7 +535,7 @@ def oracle_covariance(case):
     cond = float(np.linalg.cond(S.C6))
 
     def compare(other, R, what, band):
-        tol = TOL_COV * S.amp + (6e-8 * cond if band else 0.0)
+        tol = TOL_COV * S.amp + (2e-7 * cond if band else 0.0)
         sfx = '_band' if band else ''
         PR = P @ R.T
         u = field(other, 'displacement', PR)
@@ -645,30 +666,30 @@ _REF = {'refusal': 0.12}
 
 CLAUSES = [
     Clause('jump', oracle_jump, jump_cases, quick=6000, thorough=90000,
-           min_share=dict(_ACC, nt=0.15, solver_stroh=0.25, solver_iso=0.1, solver_auto=0.1, orient_miller=0.15, mn_vec=0.25,
-                          mn_str=0.1, ray_on_axis=0.25, b_tiny_component=0.02, int_positions=0.05, ptlist=0.2,
-                          four_index=0.03, via_axes=0.08),
+           min_share=dict(_ACC, nt=0.2, solver_stroh=0.24, solver_iso=0.12, solver_auto=0.13, orient_miller=0.19, mn_vec=0.27,
+                          mn_str=0.11, mn_str_and_vector=0.04, ray_on_axis=0.27, b_tiny_component=0.025, int_positions=0.06,
+                          ptlist=0.19, four_index=0.01, via_axes=0.06),
            max_share=_REF,
            desc='Burgers vector = displacement jump across the cut half-plane (limit at +-1e-9 r), continuity across every '
                 'other ray, invariance along the line, single point = array row = integer-typed positions, character angle, '
                 'header (m, n, xi, transform, burgers, C) against my own numbers'),
     Clause('kinematics', oracle_kinematics, kin_cases, quick=8000, thorough=120000,
-           min_share=dict(_ACC, nt=0.15, solver_stroh=0.25, solver_iso=0.1, orient_miller=0.15, pt_on_axis=0.2, ptlist=0.15,
-                          b_general=0.03, b_climb=0.02),
+           min_share=dict(_ACC, nt=0.2, solver_stroh=0.24, solver_iso=0.13, orient_miller=0.18, pt_on_axis=0.24, ptlist=0.2,
+                          b_general=0.035, b_climb=0.013, npts3=0.15),
            max_share=_REF,
            desc='strain = sym grad u and div stress = 0 by 4th-order central differences (h = 1e-4 r), stress = C:strain, '
                 'symmetry, homogeneity of degree -1'),
     Clause('energy', oracle_energy, energy_cases, quick=5000, thorough=75000,
-           min_share=dict(_ACC, nt=0.12, BL=0.8, solver_stroh=0.25, iso_medium=0.2, mn_vec=0.25), max_share=_REF,
+           min_share=dict(_ACC, nt=0.18, BL=0.8, resolved=0.18, solver_stroh=0.26, iso_medium=0.16, mn_vec=0.26), max_share=_REF,
            desc='K_tensor real symmetric positive definite, equal to the Barnett-Lothe angular integral (and to the closed '
                 'form for isotropic media); K_coeff, preln; slip-plane traction = K.b/(2 pi x)'),
     Clause('covariance', oracle_covariance, cov_cases, quick=4000, thorough=60000,
-           min_share=dict(_ACC, nt=0.15, rotated=0.8, both_generic=0.2, miller_vs_transform=0.15, aniso_medium=0.3),
+           min_share=dict(_ACC, nt=0.22, rotated=0.8, both_generic=0.26, miller_vs_transform=0.2, aniso_medium=0.3),
            max_share=_REF,
            desc='rotating crystal (C, b) by Q and laboratory (transform, m, n, points) by R rotates u, strain, stress, K; '
                 'Miller-index orientation = the corresponding transform'),
     Clause('iso_limit', oracle_iso_limit, limit_cases, quick=2500, thorough=37500,
-           min_share={'nt': 0.25, 'both_t': 0.6, 'mn_vec': 0.25},
+           min_share={'nt': 0.22, 'both_t': 0.45, 'mn_vec': 0.28, 'orient_miller': 0.19},
            desc='isotropic class and dispatcher against Hirth-Lothe closed forms; Stroh on C_iso + t D approaches them '
                 'linearly (t = 1e-2, 1e-3)'),
 ]
